@@ -8,7 +8,7 @@ and as the executable monitor of the driver (`monitor C13`):
   * every context with a running batch awaits its expiry (expired-batch entry), every running
     context without one awaits its next batch (new-batch entry);
   * an end block removes exactly the entries of its height.
-Known defect class: F-svc-3 (new-batch entry kept when no exchange rate is available).
+The former defect class F-svc-3 (new-batch entry kept when no exchange rate is available) is repaired in /repo.
 -/
 import Irismod.Model.Service
 
@@ -38,7 +38,7 @@ structure Fail where
   deriving Repr, Inhabited
 
 structure Mon where
-  leaked : List (Int × CtxId) := []     -- F-svc-3: new-batch entries the handler returned from without deleting
+  blocks : Nat := 0
   deriving Repr, Inhabited
 
 def markersAgreeB (q : List (Int × CtxId)) (m : AMap CtxId Int) : Bool :=
@@ -46,16 +46,11 @@ def markersAgreeB (q : List (Int × CtxId)) (m : AMap CtxId Int) : Bool :=
   -- at most one entry per context (the marker is a function of the context)
   q.all (fun e => (q.filter (fun e' => e'.2 = e.2)).length == 1)
 
-def rateErrorAt (pre : State) (id : CtxId) : Bool :=
-  let s1 := expiredPhase pre
-  let rc := getCtx s1 id
-  rc.state = .running && (filterProviders s1 rc rc.providers [] []).isNone
-
 /-- state clauses -/
-def stateFails (m : Mon) (s : State) : List Fail :=
+def stateFails (s : State) : List Fail :=
   (if markersAgreeB s.newQ s.newH then [] else [{ clause := "new-batch-queue-markers" : Fail }]) ++
   (if markersAgreeB s.expQ s.expH then [] else [{ clause := "expired-batch-queue-markers" : Fail }]) ++
-  (if s.newQ.all (fun e => decide (s.height ≤ e.1) || m.leaked.contains e) then [] else [{ clause := "new-batch-entry-in-the-past" : Fail }]) ++
+  (if s.newQ.all (fun e => decide (s.height ≤ e.1)) then [] else [{ clause := "new-batch-entry-in-the-past" : Fail }]) ++
   (if s.expQ.all (fun e => decide (s.height ≤ e.1)) then [] else [{ clause := "expired-batch-entry-in-the-past" : Fail }]) ++
   (if s.newQ.all (fun e => AMap.contains s.ctxs e.2) ∧ s.expQ.all (fun e => AMap.contains s.ctxs e.2) then []
    else [{ clause := "queue-entry-without-context" : Fail }]) ++
@@ -72,18 +67,14 @@ def check (m : Mon) (pre : State) (op : Op) (accepted : Bool) (post : State) : M
       let h := pre.height
       let expLeft := post.expQ.filter (fun e => e.1 = h)
       let newLeft := post.newQ.filter (fun e => e.1 = h)
-      let newLeaks := newLeft.filter (fun e => !(m.leaked.contains e))
-      let tagged := newLeaks.filter (fun e => rateErrorAt pre e.2)
-      let untagged := newLeaks.filter (fun e => !(rateErrorAt pre e.2))
-      ({ m with leaked := m.leaked ++ tagged },
+      ({ m with blocks := m.blocks + 1 },
        (if expLeft.isEmpty then [] else [{ clause := "expired-batch-entry-processed-once" : Fail }]) ++
-       (tagged.map fun _ => { clause := "new-batch-entry-processed-once", cls := "F-svc-3" : Fail }) ++
-       (untagged.map fun _ => { clause := "new-batch-entry-processed-once" : Fail }) ++
+       (newLeft.map fun _ => { clause := "new-batch-entry-processed-once" : Fail }) ++
        -- entries of other heights are not touched by the handlers of this block except by scheduling
        (if pre.expQ.all (fun e => e.1 = h || post.expQ.contains e) ∧ pre.newQ.all (fun e => e.1 = h || post.newQ.contains e)
         then [] else [{ clause := "future-entry-lost" : Fail }]))
     | .skip _ _, true => (m, [{ clause := "multi-block-step-not-monitorable" }])
     | _, _ => (m, [])
-  (m1, stepFails ++ stateFails m1 post)
+  (m1, stepFails ++ stateFails post)
 
 end Irismod.Spec.C13S
